@@ -122,4 +122,3 @@ func (d *DirectChannel) Send(ctx context.Context, p peer.ID, data []byte) error 
 	return nil
 }
 func (d *DirectChannel) Close() error { return nil }
-
